@@ -83,6 +83,24 @@ def step' (s : St) (line : String) : St × String :=
       let r := add gs p k
       (some r.1, s!"rc={r.2.2}" ++ observe r.1 r.2.1)
     | _, _ => bad
+  | ["addf", p, k, f], some gs =>
+    -- rtr_mgr_add_group while the f-th allocation of the call is refused
+    match num? p 255, num? k 4, num? f 9 with
+    | some p, some k, some f =>
+      if k = 0 ∨ f = 0 then bad else
+      let r := add gs p k f
+      (some r.1, s!"rc={r.2.2}" ++ observe r.1 r.2.1)
+    | _, _, _ => bad
+  | ["setiv", p, a, b, c], some gs =>
+    -- refresh / expire / retry of sockets[0] of group p := a / b / c (End of Data in ACCEPT_ANY mode)
+    match num? p 255, num? a 999999999, num? b 999999999, num? c 999999999 with
+    | some p, some a, some b, some c =>
+      match findG gs p with
+      | none => bad
+      | some _ =>
+        let gs' := setIvs gs p (a, b, c)
+        (some gs', "rc=0" ++ observe gs' [])
+    | _, _, _, _ => bad
   | ["remove", p], some gs =>
     match num? p 100000 with
     | some p =>
